@@ -149,7 +149,7 @@ type peerStep struct {
 	init bool     // sent in the initiator direction (full duplex)
 }
 
-func runPeer(b *rt.Conn, sp *api, script []letter) {
+func runPeer(b *rt.Conn, sp *api, script []letter, split int) {
 	p := &peerIO{c: b, fromResp: !sp.server, streams: map[uint16][]byte{}, msgs: map[uint16][][]byte{}}
 	ok := false
 	if sp.server {
@@ -181,9 +181,26 @@ func runPeer(b *rt.Conn, sp *api, script []letter) {
 	if sp.delay > 0 {
 		vtime.Sleep(sp.delay)
 	}
-	for i, l := range script {
+	join := -1
+	if split != 0 {
+		join = joinAt(script)
+	}
+	for i := 0; i < len(script); i++ {
+		l := script[i]
 		if i > 0 {
 			vtime.Sleep(pace)
+		}
+		if i == join {
+			// message i complete + the first n bytes of message i+1 in one segment, the rest in the next
+			nx := script[i+1].data
+			n := split
+			if n < 0 || n >= len(nx) {
+				n = len(nx) / 2
+			}
+			p.sendDir(l.pid, append(append([]byte(nil), l.data...), nx[:n]...), p.fromResp && !l.init)
+			p.sendDir(l.pid, nx[n:], p.fromResp && !l.init)
+			i++
+			continue
 		}
 		switch l.kind {
 		case kMsg, kMalformed:
